@@ -2,6 +2,7 @@ import BoltonsVerif.C04.Proofs
 import BoltonsVerif.C04.Closed
 import BoltonsVerif.C04.View
 import BoltonsVerif.C04.Names
+import BoltonsVerif.C04.Win
 import BoltonsVerif.Generated.C04_Consts
 /-
 C04 — property theorems: a trace accepted by `SafeTrace` is crash safe at every prefix under both
@@ -505,5 +506,102 @@ theorem part_named_as_dest_breaks :
     SafeTrace t = false ∧ fs0.readDest = none ∧
       (exec fs0 (t.take 1)).map FS.destAfterProcCrash = some (some []) ∧
       (exec fs0 (t.take 2)).map FS.destAfterProcCrash = some (some [1, 2]) := by decide
+
+/-! ### round 3: the Windows branch of `replace()` / `atomic_rename()` -/
+
+/-- **Windows `replace()` is one atomic `rename part dest`** (whatever the directory looks like, as long as the finished part file is there): the Windows
+    `replace()` - `os.rename`, and `ReplaceFile` when that refuses with `EEXIST` - has exactly the effect
+    of ONE `rename part dest`; the calls it performs, read as events (the refused rename has no effect),
+    contain one publishing event and execute to the same state: the destination reads what the part
+    file held and the part file's name is gone. -/
+theorem nt_replace_is_one_rename (fs : FS) (hp : fs.hasPart = true) :
+    (ntReplace fs).1 = fs.renamePartDest ∧
+    ∃ fs', fs.renamePartDest = .ok fs' ∧ exec fs (ntReplace fs).2 = some fs' ∧
+      publishes (ntReplace fs).2 = true ∧ fs'.readDest = fs.readPart ∧ fs'.hasPart = false := by
+  simp only [FS.hasPart] at hp
+  cases hpp : fs.dir.part with
+  | none => simp [hpp] at hp
+  | some i =>
+    cases hd : fs.dir.dest <;>
+      simp [ntReplace, FS.winRename, FS.replaceFile, FS.renamePartDest, hd, hpp, EEXIST, exec, FS.step,
+        publishes, FS.setDir, FS.readDest, FS.readPart, FS.hasPart, FS.inode?]
+
+/-- Windows `atomic_rename(overwrite=False)` over an existing destination: `os.rename` refuses, the
+    error is raised, nothing has changed -/
+theorem nt_no_overwrite_never_replaces (fs : FS) (hd : fs.hasDest = true) :
+    ntAtomicRename false fs = (.error EEXIST, [.noop]) ∧ exec fs (ntAtomicRename false fs).2 = some fs := by
+  simp only [FS.hasDest] at hd
+  cases hdd : fs.dir.dest with
+  | none => simp [hdd] at hd
+  | some i => simp [ntAtomicRename, FS.winRename, hdd, exec, FS.step]
+
+/-- the transliterated saver with the Windows publication step emits accepted traces, for every
+    configuration, initial state and body -/
+theorem saver_nt_emits_safeTrace (cfg : Cfg) (fs : FS) (body : Body) :
+    SafeTrace (saverTraceNt cfg fs body) = true := saverNt_safe cfg fs body
+
+/-- ... hence it is crash safe at every point (both crash semantics), under the assumption that
+    `ReplaceFile` / Windows `rename` are atomic directory operations -/
+theorem saver_nt_crash_safe (cfg : Cfg) (fs0 : FS) (body : Body) (hwf : fs0.WF) (hh : fs0.hist = [])
+    (hsy : DestSynced fs0) :
+    ∀ p q fs, saverTraceNt cfg fs0 body = p ++ q → exec fs0 p = some fs →
+      (fs.destAfterProcCrash = fs0.readDest ∨ fs.destAfterProcCrash = some (body.writes.map (·.1)).flatten) ∧
+      (∀ r, fs.PowerDest r → r = fs0.readDest ∨ r = some (body.writes.map (·.1)).flatten) ∧
+      (publishes p = false → fs.destAfterProcCrash = fs0.readDest ∧ ∀ r, fs.PowerDest r → r = fs0.readDest) := by
+  intro p q fs ht hx
+  have := safeTrace_crash_safe fs0 _ hwf hh hsy (saverNt_safe cfg fs0 body) p q fs ht hx
+  rw [allWrites_saverTraceNt] at this
+  exact ⟨this.1, this.2.1, this.2.2.1⟩
+
+/-- normal exit on Windows: the complete new content at the destination and no part file -/
+theorem nt_normal_exit (cfg : Cfg) (fs : FS) (body : Body) (hh : fs.hist = [])
+    (hp : fs.dir.part = none ∨ cfg.overwritePart = true)
+    (hd : cfg.overwrite = true ∨ fs.dir.dest = none) (hr : body.raises = false) :
+    ∃ fs', exec fs (saverTraceNt cfg fs body) = some fs' ∧
+      fs'.readDest = some (body.writes.map (·.1)).flatten ∧ fs'.dir.part = none := by
+  have hnd : (fs.hasDest && !cfg.overwrite && cfg.rmPartOnExc) = false := by
+    rcases hd with h | h
+    · simp [h]
+    · simp [FS.hasDest, h]
+  have hrun : (St.mk .part true false false).run (ntRest cfg fs body.writes (ntPublish cfg.overwrite fs.hasDest)) =
+      some ⟨.done, false, false, false⟩ := by
+    rw [ntRest_run]
+    rcases hd with h | h
+    · cases fs.hasDest <;> simp [ntPublish, h, St.run, St.step]
+    · simp [ntPublish, FS.hasDest, h, St.run, St.step]
+  have hauto : ∀ e ∈ ntRest cfg fs body.writes (ntPublish cfg.overwrite fs.hasDest), e.auto fs.dir.dest = true := by
+    intro e he
+    simp only [ntRest, List.mem_cons, List.mem_append, List.mem_map] at he
+    rcases he with he | he | he | he | he
+    · subst he; rfl
+    · split at he <;> simp at he; subst he; rfl
+    · obtain ⟨w, _, rfl⟩ := he; rfl
+    · simp at he; rcases he with rfl | rfl | rfl <;> rfl
+    · unfold ntPublish at he
+      split at he
+      · split at he <;> simp at he
+        · rcases he with rfl | rfl <;> rfl
+        · subst he; rfl
+      · simp at he; subst he; rfl
+  obtain ⟨fs', hx, hi⟩ := open_then_exec cfg fs _ _ hh hp hrun hauto
+  refine ⟨fs', ?_, ?_⟩
+  · rw [saverTraceNt_eq]; simpa [hr, hnd] using hx
+  · have hw : allWrites (ntRest cfg fs body.writes (ntPublish cfg.overwrite fs.hasDest)) = (body.writes.map (·.1)).flatten := by
+      have := allWrites_saverTraceNt cfg fs body
+      rw [saverTraceNt_eq] at this
+      simp only [hr, hnd, allWrites_append] at this
+      have hpre : allWrites (saverPre cfg fs) = [] := by unfold saverPre; split <;> simp [allWrites]
+      simpa [hpre, allWrites] using this
+    rw [hw] at hi
+    simp only [GInv] at hi
+    obtain ⟨h1, h2, _, x, h4, h5, h6, _⟩ := hi
+    exact ⟨by simp [FS.readDest, FS.inode?, h1, h4, Inode.cache, h5, h6], h2⟩
+
+/-- non-vacuity: over an existing destination the Windows save performs a refused rename, then the replacing step -/
+example : let fs0 : FS := ⟨[⟨[7], [], 0o644⟩], ⟨some 0, none⟩, [], none, 0o022⟩
+    saverTraceNt {} fs0 ⟨[([1, 2], 0)], false⟩ =
+      [.openPart true true 0o644, .noop, .chmodPart 0o644, .write [1, 2] 0, .flush, .fsync, .close, .noop, .renamePartDest] ∧
+    (exec fs0 (saverTraceNt {} fs0 ⟨[([1, 2], 0)], false⟩)).map FS.readDest = some (some [1, 2]) := by decide
+
 
 end C04
